@@ -252,7 +252,7 @@ int main(int argc, char **argv)
 {
   Args args(argc, argv);
   bool thorough = args.thorough();
-  int depth = thorough ? 6 : 5;
+  int depth = thorough ? 7 : 5;
   std::vector<Op> alpha = alphabet();
 
   // enumerate all enabled sequences up to `depth` (abstract state decides enabledness); sequences must contain a deletion
@@ -268,16 +268,16 @@ int main(int argc, char **argv)
           if (!enabled(n.s, alpha[oi])) continue;
           // prune: reset on an empty module, and two consecutive resets
           if (alpha[oi].k == RESET && n.h.empty()) continue;
-          if (thorough && d >= 5) {
-            // depth 6: only sequences whose last operation is a deletion/reset (every prefix was explored at depth <= 5)
-            if (!(alpha[oi].k == DEL_B || alpha[oi].k == DEL_V || alpha[oi].k == RESET)) continue;
-          }
+          // lengths 6 and 7 (thorough): only sequences whose last operation is a deletion/reset are RUN (every prefix of
+          // length <= 5 was run); the frontier of length 6 is kept complete so that length 7 covers every prefix
+          bool ends_in_del = (alpha[oi].k == DEL_B || alpha[oi].k == DEL_V || alpha[oi].k == RESET);
+          if (d >= 6 && !ends_in_del) continue;
           Node m = n;
           m.h.push_back((int) oi);
           apply_abs(m.s, alpha[oi]);
+          if (d < 5 || ends_in_del) all.push_back(m.h);
           next.push_back(m);
         }
-      for (auto &n : next) all.push_back(n.h);
       frontier.swap(next);
     }
   }
